@@ -3,6 +3,9 @@ package sym
 import (
 	"fmt"
 	"go/types"
+	"sort"
+
+	"golang.org/x/tools/go/ssa"
 	"strings"
 )
 
@@ -114,6 +117,57 @@ func (in *Interp) watchObject(v Value, t types.Type, tag string, depth int) {
 	switch x := v.(type) {
 	case *Value:
 		walkVal(x, t, tag)
+	}
+	if depth == 0 && !in.globalsWatched {
+		// package-level state of the repository's own packages (key prefixes, the shared zero,
+		// address constants): scalars, byte slices including their spare capacity, and the
+		// big.Int a package-level pointer refers to. A call never writes them - an in-place
+		// append into a prefix that was given spare capacity, or arithmetic on the shared zero,
+		// would make one call's result depend on another's.
+		in.globalsWatched = true
+		var pkgs []*ssa.Package
+		for _, p := range in.prog.AllPackages() {
+			if p.Pkg != nil && isRepoPkg(p.Pkg.Path()) && !strings.Contains(p.Pkg.Path(), "zz_verif") && !strings.Contains(p.Pkg.Path(), "/mock") {
+				pkgs = append(pkgs, p)
+			}
+		}
+		sort.Slice(pkgs, func(i, j int) bool { return pkgs[i].Pkg.Path() < pkgs[j].Pkg.Path() })
+		for _, p := range pkgs {
+			var names []string
+			for n, m := range p.Members {
+				if _, ok := m.(*ssa.Global); ok {
+					names = append(names, n)
+				}
+			}
+			sort.Strings(names)
+			for _, n := range names {
+				g := p.Members[n].(*ssa.Global)
+				et := g.Type().(*types.Pointer).Elem()
+				switch u := et.Underlying().(type) {
+				case *types.Basic:
+				case *types.Slice:
+					if eb, ok := u.Elem().Underlying().(*types.Basic); !ok || eb.Info()&types.IsNumeric == 0 {
+						continue
+					}
+				case *types.Pointer:
+					if u.Elem().String() != "math/big.Int" {
+						continue
+					}
+				default:
+					continue
+				}
+				slot := in.global(g)
+				path := "package variable " + p.Pkg.Name() + "." + n
+				walkVal(slot, et, path)
+				if _, ok := et.Underlying().(*types.Pointer); ok {
+					if q, ok := (*slot).(*Value); ok && q != nil {
+						if _, seen := in.watch[q]; !seen {
+							in.watch[q] = path + " (pointee)"
+						}
+					}
+				}
+			}
+		}
 	}
 	in.watchOn = true
 }
